@@ -154,7 +154,12 @@ Definition reconstruct_and_join (shards : list shard) (k out : Z) : res (list by
   | Panic => (Panic, shards)
   end.
 
-(* losing the shards whose indices are in E *)
-Definition erase (E : list nat) (shards : list (list byte)) : list shard :=
-  map (fun i => if existsb (Nat.eqb i) E then None else Some (nth i shards []))
+(* losing the shards whose indices are in E; a lost shard is handed over as nil, or -- for
+   the indices in Zs -- as an empty non-nil slice (klauspost treats both as missing) *)
+Definition erase_as (E Zs : list nat) (shards : list (list byte)) : list shard :=
+  map (fun i => if existsb (Nat.eqb i) E
+                then (if existsb (Nat.eqb i) Zs then Some [] else None)
+                else Some (nth i shards []))
       (seq 0 (length shards)).
+
+Definition erase (E : list nat) (shards : list (list byte)) : list shard := erase_as E [] shards.
